@@ -179,7 +179,7 @@ def solver_input_files(chk: Check, work):
     import sys
 
     import halmos.solve as hsolve
-    from harness.artifacts import Contract, Fn, arg, panic, revert_plain, run_contract
+    from harness.artifacts import HEVM, Contract, Fn, arg, cheat_call, panic, revert_plain, run_contract
     from harness.hrun import hmain
 
     z3bin = shutil.which("z3")
@@ -209,8 +209,17 @@ def solver_input_files(chk: Check, work):
         hmain.solve_low_level = low
         try:
             verdicts = {}
-            for name, product in (("MulA", 11), ("MulB", 6)):
-                c = Contract(name, [Fn("setUp()", ["STOP"]), Fn("check_mul(uint256,uint256)", body(product))])
+            # ... and a path on which halmos gets stuck behind two contradictory vm.assume calls: its confirmation query
+            # (unsat: the test passes) goes through the same serialisation, also under --cache-solver
+            stuck = (arg(0) + ["ISZERO", ("PUSHL", "z"), "JUMPI"]
+                     + cheat_call(HEVM, "assume(bool)", [[("PUSH", 10)] + arg(0) + ["LT"]])
+                     + cheat_call(HEVM, "assume(bool)", [[("PUSH", 20)] + arg(0) + ["GT"]])
+                     + [("RAW", bytes([0x0C])), ("LABEL", "z"), "STOP"])
+            for name, product in (("MulA", 11), ("MulB", 6), ("StuckC", None)):
+                if product is None:
+                    c = Contract(name, [Fn("setUp()", ["STOP"]), Fn("check_mul(uint256,uint256)", stuck)])
+                else:
+                    c = Contract(name, [Fn("setUp()", ["STOP"]), Fn("check_mul(uint256,uint256)", body(product))])
                 out = run_contract(c, cli=("--dump-smt-directory", str(ddir), "--solver-command", f"{sys.executable} -S {recorder} {journal} {z3bin}", "--solver-threads", "1") + cache)
                 r = out.by_sig().get("check_mul(uint256,uint256)")
                 if r is None:
@@ -235,6 +244,12 @@ def solver_input_files(chk: Check, work):
             chk.count("evaluations")
             chk.count("traces_validated_against_impl")
             reused += k > 0
+            try:
+                qo.parse(rec["text"])
+            except z3.Z3Exception as ex:
+                chk.violation(f"solver-input-file:{tag}:ill-formed", f"the file the solver was started on ({rec['file']}) is not well-formed SMT-LIB: {str(ex)[:200]}",
+                              {"file": rec["file"], "solver_read": rec["text"][:2500]})
+                continue
             if k >= len(want) or want[k].strip() not in rec["text"]:
                 chk.violation(f"solver-input-file:{tag}:{'refined' if '.refined' in rec['file'] else 'query'}",
                               f"the file the solver was started on ({rec['file']}, use #{k + 1} of that name) does not contain the query of the path being solved",
@@ -242,8 +257,8 @@ def solver_input_files(chk: Check, work):
         chk.nontrivial(("solver-input", tag, reused > 0))
         if not reused:
             raise MachineryError("the two contracts did not share a dump file name: the scenario does not exercise a non-fresh directory")
-        if verdicts != {"MulA": 0, "MulB": 1}:
-            chk.violation(f"solver-input-file:{tag}:verdict", f"A.check_mul (infeasible) / B.check_mul (x = 2, y = 3) sharing one --dump-smt-directory: exit codes {verdicts}, expected PASS / FAIL",
+        if verdicts != {"MulA": 0, "MulB": 1, "StuckC": 0}:
+            chk.violation(f"solver-input-file:{tag}:verdict", f"A.check_mul (infeasible) / B.check_mul (x = 2, y = 3) sharing one --dump-smt-directory: exit codes {verdicts}, expected PASS / FAIL (and PASS for the test whose stuck path is infeasible)",
                           {"verdicts": verdicts})
     chk.cov["solver_input_files"] = "two contracts, same test name, one --dump-smt-directory, plain and --cache-solver; journalled solver input vs PathContext.query"
 
